@@ -168,6 +168,9 @@ SCHEDULES = [
     # events without data (legal: total=False TypedDict; they dispatch nothing) must not end or disturb the stream
     [(0, {"data": "a"}), (0, {}), (0, {"data": "b", "id": "7"}), (0, {"id": "9"}), (0, {"data": "c"}), (0, {"retry": 1500}), (0, {"data": "d"})],
     [(0, {}), (0, {"data": "after an empty first event"})],
+    # fields with an EMPTY value are not no-ops: `id:` with an empty value resets the last event id
+    [(0, {"id": "7", "event": "tick", "data": "first"}), (0, {"id": "", "data": "second"}), (0, {"data": "third"}),
+     (0, {"event": "", "data": "fourth", "id": "8"}), (0, {"id": ""}), (0, {"data": "fifth"})],
     [(0, {"data": "a\rb\r\nc"}), (0.12, {"data": ""}), (0, {"data": "x", "retry": 10})],
     [],
 ]
